@@ -41,6 +41,9 @@ type ProviderCache struct {
 	seq       uint
 	write     map[peer.ID]*cacheInfo
 	writeLock chan struct{}
+	// refreshes counts the refreshes that completed and published their
+	// results.
+	refreshes atomic.Uint64
 
 	needsRefresh atomic.Bool
 	refreshIn    time.Duration
@@ -264,13 +267,21 @@ func (pc *ProviderCache) Refresh(ctx context.Context) error {
 	select {
 	case pc.writeLock <- struct{}{}:
 	default:
-		// Refresh already in progress, wait for it to finish.
+		// Another writer is busy. If that is a refresh, wait for it to finish
+		// and use its result.
+		completed := pc.refreshes.Load()
 		select {
 		case pc.writeLock <- struct{}{}:
-			<-pc.writeLock
 		case <-ctx.Done():
+			return ctx.Err()
 		}
-		return ctx.Err()
+		if pc.refreshes.Load() != completed {
+			// A refresh completed while waiting.
+			<-pc.writeLock
+			return nil
+		}
+		// The other writer was not a refresh, or its refresh was canceled
+		// before completing, so do the refresh now.
 	}
 	defer func() {
 		<-pc.writeLock
@@ -363,6 +374,7 @@ func (pc *ProviderCache) Refresh(ctx context.Context) error {
 	// new main map yet.
 	if !needMerge(len(updates), len(read.m)) {
 		pc.read.Store(&readOnly{m: read.m, u: updates})
+		pc.refreshes.Add(1)
 		return nil
 	}
 
@@ -378,6 +390,7 @@ func (pc *ProviderCache) Refresh(ctx context.Context) error {
 
 	// Replace old readOnly map with new.
 	pc.read.Store(&readOnly{m: m})
+	pc.refreshes.Add(1)
 	return nil
 }
 
